@@ -515,6 +515,7 @@ pub mod rewrite {
           for (mod_ref, mod_cx) in state.global_cx.iter() {
             if mod_ref.ne(module_reference)
               && mod_cx.interfaces.get(name).is_some_and(|interface_sig| !interface_sig.private)
+              && samlang_parser::is_importable_module(&state.heap, mod_ref)
             {
               actions.push(generate_auto_import_code_action(
                 state,
@@ -680,6 +681,12 @@ pub mod completion {
             .collect::<HashSet<_>>();
           let mut items = Vec::new();
           for (import_mod_ref, mod_cx) in &state.global_cx {
+            if import_mod_ref.ne(module_reference)
+              && !samlang_parser::is_importable_module(&state.heap, import_mod_ref)
+            {
+              // Classes of a module whose name cannot be written in an import cannot be imported.
+              continue;
+            }
             for (n, interface_sig) in &mod_cx.interfaces {
               if interface_sig.private && import_mod_ref.ne(module_reference) {
                 // Private classes of other modules cannot be imported.
